@@ -27,18 +27,22 @@
   Still outside — why the theorems keep `_partial`:
     * names ending in a loop's bookkeeping suffix (`x.index`, `x.lastIndex` — no variable name contains a
       '.', so this excludes nothing a parser produces); (`$ij` with its access chains is inside: `EnvRel.ij`)
-    * the loop functions index / isFirst / isLast: the specification gives `index($x)` as the integer `i`
+    * (the loop functions index / isFirst / isLast are inside under `LoopRel`: `eval_refines_spec_loops`,
+      `fragO true true`; the C02 refinement does not supply `LoopRel` yet — the bound on the loop length is a
+      fact about the execution.)  Formerly: the specification gives `index($x)` as the integer `i`
       whatever its size, the interpreter keeps it as an int64 — the two differ for a loop over more than
       2^63 items, and the specification's clause is pinned by Props/C04c (`hspec`); it would need a guard
       on the loop length there;
     * round / floor / ceiling: they need exactness lemmas about the soft-float (decode ∘ round-to-nearest on
       integers below 2^53, exact products by powers of ten) that are not proved; randomInt (a PRNG);
-    * a map literal that repeats a key.
+    * a map literal whose TREE repeats a key — no parser produces one: `parseMapLiteral` keeps the last value
+      of a repeated key and the tree is sorted by key (`mapFragO_of_sorted`).
   These stay decided by the exhaustive C01eval matrix against Spec.eval.
 -/
 import SoyVerif.Lemmas.EvalRefine
 import SoyVerif.Lemmas.FuncRefine
 import SoyVerif.Lemmas.F64Order
+import SoyVerif.Model.PrintTokens
 
 namespace SoyVerif.Props.C01
 open SoyVerif SoyVerif.Model SoyVerif.Model.Eval SoyVerif.Refine
@@ -61,39 +65,72 @@ def itemKeys : MapItems → List Bytes
 
 mutual
 /-- the expression fragment, with (`ord = true`) or without the four ordering comparisons -/
-def fragO (ord : Bool) : Expr → Bool
+def fragO (ord lf : Bool) : Expr → Bool
   | .null _ => true
   | .bool _ _ => true
   | .int _ v => decide (-2 ^ 63 ≤ v ∧ v < 2 ^ 63)
   | .float _ _ => true
   | .str _ _ _ => true
   | .global _ _ => true
-  | .dataRef _ key acc => (key == sIj || !isHelper key) && accFrag ord acc
-  | .not _ a => fragO ord a
-  | .neg _ a => fragO ord a
-  | .bin op _ a b => opOk ord op && fragO ord a && fragO ord b
-  | .tern _ c a b => fragO ord c && fragO ord a && fragO ord b
-  | .list _ items => listFragO ord items
-  | .map _ items => mapFragO ord items
-  | .func _ name args => fnOk name && listFragO ord args
+  | .dataRef _ key acc => (key == sIj || !isHelper key) && accFrag ord lf acc
+  | .not _ a => fragO ord lf a
+  | .neg _ a => fragO ord lf a
+  | .bin op _ a b => opOk ord op && fragO ord lf a && fragO ord lf b
+  | .tern _ c a b => fragO ord lf c && fragO ord lf a && fragO ord lf b
+  | .list _ items => listFragO ord lf items
+  | .map _ items => mapFragO ord lf items
+  | .func _ name args => (lf && isLoopFunc name) || (fnOk name && listFragO ord lf args)
 /-- access chains: `.k`, `.N`, `[e]` and the null-safe forms, the key expressions in the fragment -/
-def accFrag (ord : Bool) : AccessList → Bool
+def accFrag (ord lf : Bool) : AccessList → Bool
   | .nil => true
-  | .cons (.key _ _ _) r => accFrag ord r
-  | .cons (.index _ _ _) r => accFrag ord r
-  | .cons (.expr _ _ e) r => fragO ord e && accFrag ord r
+  | .cons (.key _ _ _) r => accFrag ord lf r
+  | .cons (.index _ _ _) r => accFrag ord lf r
+  | .cons (.expr _ _ e) r => fragO ord lf e && accFrag ord lf r
 /-- the items of a list literal (the arguments of a function) -/
-def listFragO (ord : Bool) : ExprList → Bool
+def listFragO (ord lf : Bool) : ExprList → Bool
   | .nil => true
-  | .cons e r => fragO ord e && listFragO ord r
+  | .cons e r => fragO ord lf e && listFragO ord lf r
 /-- the items of a map literal: pairwise different keys -/
-def mapFragO (ord : Bool) : MapItems → Bool
+def mapFragO (ord lf : Bool) : MapItems → Bool
   | .nil => true
-  | .cons k e r => fragO ord e && !(itemKeys r).contains k && mapFragO ord r
+  | .cons k e r => fragO ord lf e && !(itemKeys r).contains k && mapFragO ord lf r
 end
 
+/-- the values of a map literal are in the fragment (nothing about its keys) -/
+def mapValsFrag (ord lf : Bool) : MapItems → Bool
+  | .nil => true
+  | .cons _ e r => fragO ord lf e && mapValsFrag ord lf r
+
+theorem bytes_lt_irrefl : (a : Bytes) → Bytes.lt a a = false
+  | [] => rfl
+  | x :: r => by simp [Bytes.lt, bytes_lt_irrefl r]
+
+theorem itemKeys_eq_keysOf : (items : MapItems) → itemKeys items = PrintTokens.keysOf items
+  | .nil => rfl
+  | .cons k _ r => by simp [itemKeys, PrintTokens.keysOf, itemKeys_eq_keysOf r]
+
+/-- "pairwise different keys" excludes no map literal a parser produces: `parseMapLiteral` collects the items
+    in a Go map — a repeated key keeps the LAST value — and the tree holds them in sorted key order
+    (`MapItems.set` in Model/Parser.lean; `PrintTokens.SortedKeys` is part of C17's canonical trees); keys in
+    strictly increasing order are pairwise different -/
+theorem mapFragO_of_sorted (ord lf : Bool) : (items : MapItems) → PrintTokens.SortedKeys items →
+    mapValsFrag ord lf items = true → mapFragO ord lf items = true
+  | .nil, _, _ => rfl
+  | .cons k e r, hs, hv => by
+    simp only [mapValsFrag, Bool.and_eq_true] at hv
+    simp only [PrintTokens.SortedKeys] at hs
+    have hk : (itemKeys r).contains k = false := by
+      cases hc : (itemKeys r).contains k with
+      | false => rfl
+      | true =>
+        rw [itemKeys_eq_keysOf] at hc
+        have := hs.1 k (by simpa using hc)
+        rw [bytes_lt_irrefl] at this
+        cases this
+    simp only [mapFragO, hv.1, hk, mapFragO_of_sorted ord lf r hs.2 hv.2, Bool.not_false, Bool.and_self]
+
 /-- the fragment without `< > <= >=` (no hypothesis about the soft-float needed) -/
-def frag (e : Expr) : Bool := fragO false e
+def frag (e : Expr) : Bool := fragO false false e
 
 /-- the model's environment and the specification's bind the same values — scalars, except under the names
     `coll` -/
@@ -109,6 +146,82 @@ structure EnvRel (m : EEnv) (s : Spec.Eval.Env) : Prop where
 def Sim (m : EEnv) (s : Spec.Eval.Env) (e : Expr) : Prop :=
   ∀ n, (∀ v, Spec.Eval.eval s e = .val v → ∃ mv n', evalE m e n = .ok mv n' ∧ absV mv = v) ∧
        (Spec.Eval.eval s e = .error → evalE m e n = .err)
+
+/-- the enclosing loops: the interpreter keeps the index and the last index of the loop over `x` under the
+    names `x.index` / `x.lastIndex`, as int64 — and the loop is shorter than 2^63 (a list that fits in memory is;
+    Go's `len` is an int.  This is where that is stated: the specification's `index($x)` is the unbounded natural) -/
+def LoopRel (m : EEnv) (s : Spec.Eval.Env) : Prop :=
+  ∀ x i l, Spec.Eval.findLoop s.loops x = some (i, l) →
+    m.lookup (x ++ sIndexSuffix) = .int (Int64.ofInt i) ∧ m.lookup (x ++ sLastIndexSuffix) = .int (Int64.ofInt l) ∧
+      i ≤ l ∧ (l : Int) < 2 ^ 63
+
+theorem ofNat_toInt (i : Nat) (h : (i : Int) < 2 ^ 63) : (Int64.ofInt i).toInt = i :=
+  Int64.toInt_ofInt_of_le (by omega) h
+
+theorem ofNat_beq (i l : Nat) (hi : (i : Int) < 2 ^ 63) (hl : (l : Int) < 2 ^ 63) :
+    (Int64.ofInt (i : Int) == Int64.ofInt (l : Int)) = (i == l) := by
+  rw [Bool.eq_iff_iff]
+  simp only [beq_iff_eq]
+  constructor
+  · intro h
+    have := congrArg Int64.toInt h
+    rw [ofNat_toInt i hi, ofNat_toInt l hl] at this
+    exact Int.ofNat_inj.mp this
+  · intro h; rw [h]
+
+/-- the loop functions: where the specification gives a value — the argument is the variable of an
+    enclosing loop — the interpreter gives the same value (the specification never says `error` here) -/
+theorem loopFn_sim {m : EEnv} {s : Spec.Eval.Env} (hr : LoopRel m s) (p : Nat) (name : Bytes)
+    (hL : isLoopFunc name = true) (args : ExprList) : Sim m s (.func p name args) := by
+  intro n
+  have hS : Spec.Eval.isLoopFn name = true := hL
+  rw [Spec.Eval.eval.eq_def, evalE.eq_def]
+  simp only [hL, hS, if_true]
+  have none_case : ∀ (r : ERes), (∀ v, (Out.unspec : Out Val) = .val v → ∃ mv n', r = .ok mv n' ∧ absV mv = v) ∧
+      ((Out.unspec : Out Val) = .error → r = .err) := fun r => ⟨fun v h => (by cases h), fun h => (by cases h)⟩
+  cases args with
+  | nil => exact none_case _
+  | cons a rest =>
+    cases a with
+    | dataRef q key acc =>
+      cases acc with
+      | cons _ _ => exact none_case _
+      | nil =>
+        cases rest with
+        | cons _ _ => exact none_case _
+        | nil =>
+          simp only
+          cases hf : Spec.Eval.findLoop s.loops key with
+          | none => exact none_case _
+          | some il =>
+            obtain ⟨i, l⟩ := il
+            obtain ⟨hidx, hlast, hil, hl⟩ := hr key i l hf
+            have hi : (i : Int) < 2 ^ 63 := by omega
+            simp only [applyLoopFunc, hidx, hlast]
+            have e1 : (name == Spec.Eval.nIndex) = (name == fIndex) := rfl
+            have e2 : (name == Spec.Eval.nIsFirst) = (name == fIsFirst) := rfl
+            rw [e1, e2]
+            refine ⟨fun v hv => ?_, fun herr => ?_⟩
+            · by_cases h1 : (name == fIndex) = true
+              · simp only [h1, if_true, Out.val.injEq] at hv ⊢
+                exact ⟨_, _, rfl, by rw [← hv, absV, ofNat_toInt i hi]⟩
+              · simp only [h1, Bool.false_eq_true, if_false] at hv ⊢
+                by_cases h2 : (name == fIsFirst) = true
+                · simp only [h2, if_true, Out.val.injEq] at hv ⊢
+                  refine ⟨_, _, rfl, ?_⟩
+                  rw [← hv, absV]
+                  have := ofNat_beq i 0 hi (by decide)
+                  exact congrArg Val.bool (by simpa using this)
+                · simp only [h2, Bool.false_eq_true, if_false, Out.val.injEq] at hv ⊢
+                  refine ⟨_, _, rfl, ?_⟩
+                  rw [← hv, absV]
+                  exact congrArg Val.bool (ofNat_beq i l hi hl)
+            · by_cases h1 : (name == fIndex) = true
+              · simp [h1] at herr
+              · by_cases h2 : (name == fIsFirst) = true
+                · simp [h1, h2] at herr
+                · simp [h1, h2] at herr
+    | _ => exact none_case _
 
 theorem bind_val {α β : Type} {o : Out α} {f : α → Out β} {b : β} (h : o.bind f = .val b) :
     ∃ a, o = .val a ∧ f a = .val b := by
@@ -218,7 +331,7 @@ theorem strict_sim (op : BinOp) (p : Nat) (a b : Expr)
 
 mutual
 /-- the model refines the specification on the fragment -/
-theorem eval_refines_spec_ord (ord : Bool) (hord : ord = true → OrdExact) : (e : Expr) → fragO ord e = true → Sim m s e
+theorem eval_refines_spec_ord (ord : Bool) (hord : ord = true → OrdExact) (lf : Bool) (hlf : lf = true → LoopRel m s) : (e : Expr) → fragO ord lf e = true → Sim m s e
   | .null _, _ => by intro n; simp [Spec.Eval.eval, evalE, absV, Scalar]
   | .bool _ b, _ => by intro n; simp [Spec.Eval.eval, evalE, absV, Scalar]
   | .int _ v, hf => by
@@ -257,7 +370,7 @@ theorem eval_refines_spec_ord (ord : Bool) (hord : ord = true → OrdExact) : (e
         rw [hm] at hij
         simp only [Option.map_some] at hij
         rw [← hij]
-        have := acc_sim ord hord acc hf.2 (.map id kvs) n
+        have := acc_sim ord hord lf hlf acc hf.2 (.map id kvs) n
         rw [absV] at this
         exact this
     · have h1' : (key == sIj) = false := by simpa using h1
@@ -268,10 +381,10 @@ theorem eval_refines_spec_ord (ord : Bool) (hord : ord = true → OrdExact) : (e
         · rw [h] at h1'; cases h1'
         · exact h
       rw [← hr.vars key hh]
-      exact acc_sim ord hord acc hf.2 (m.lookup key) n
+      exact acc_sim ord hord lf hlf acc hf.2 (m.lookup key) n
   | .not _ a, hf => by
     intro n
-    have ih := eval_refines_spec_ord ord hord a (by simpa [fragO] using hf) n
+    have ih := eval_refines_spec_ord ord hord lf hlf a (by simpa [fragO] using hf) n
     rw [Spec.Eval.eval, evalE]
     refine ⟨fun v hv => ?_, fun herr => ?_⟩
     · obtain ⟨va, hva, hv⟩ := bind_val hv
@@ -284,7 +397,7 @@ theorem eval_refines_spec_ord (ord : Bool) (hord : ord = true → OrdExact) : (e
       · simp at h
   | .neg _ a, hf => by
     intro n
-    have ih := eval_refines_spec_ord ord hord a (by simpa [fragO] using hf) n
+    have ih := eval_refines_spec_ord ord hord lf hlf a (by simpa [fragO] using hf) n
     rw [Spec.Eval.eval, evalE]
     refine ⟨fun v hv => ?_, fun herr => ?_⟩
     · obtain ⟨va, hva, hv⟩ := bind_val hv
@@ -322,7 +435,7 @@ theorem eval_refines_spec_ord (ord : Bool) (hord : ord = true → OrdExact) : (e
   | .tern _ c a b, hf => by
     intro n
     simp only [fragO, Bool.and_eq_true] at hf
-    have ihc := eval_refines_spec_ord ord hord c hf.1.1 n
+    have ihc := eval_refines_spec_ord ord hord lf hlf c hf.1.1 n
     rw [Spec.Eval.eval, evalE]
     refine ⟨fun v hv => ?_, fun herr => ?_⟩
     · obtain ⟨vc, hvc, hv⟩ := bind_val hv
@@ -331,8 +444,8 @@ theorem eval_refines_spec_ord (ord : Bool) (hord : ord = true → OrdExact) : (e
       simp only
       rw [← habs, truthy_abs mc] at hv
       split at hv
-      · rename_i ht; simp only [ht, if_true]; exact (eval_refines_spec_ord ord hord a hf.1.2 n1).1 v hv
-      · rename_i ht; simp only [ht, if_false]; exact (eval_refines_spec_ord ord hord b hf.2 n1).1 v hv
+      · rename_i ht; simp only [ht, if_true]; exact (eval_refines_spec_ord ord hord lf hlf a hf.1.2 n1).1 v hv
+      · rename_i ht; simp only [ht, if_false]; exact (eval_refines_spec_ord ord hord lf hlf b hf.2 n1).1 v hv
     · rcases bind_err herr with h | ⟨vc, hvc, h⟩
       · rw [ihc.2 h]
       · obtain ⟨mc, n1, hmc, habs⟩ := ihc.1 vc hvc
@@ -340,12 +453,12 @@ theorem eval_refines_spec_ord (ord : Bool) (hord : ord = true → OrdExact) : (e
         simp only
         rw [← habs, truthy_abs mc] at h
         split at h
-        · rename_i ht; simp only [ht, if_true]; exact (eval_refines_spec_ord ord hord a hf.1.2 n1).2 h
-        · rename_i ht; simp only [ht, if_false]; exact (eval_refines_spec_ord ord hord b hf.2 n1).2 h
+        · rename_i ht; simp only [ht, if_true]; exact (eval_refines_spec_ord ord hord lf hlf a hf.1.2 n1).2 h
+        · rename_i ht; simp only [ht, if_false]; exact (eval_refines_spec_ord ord hord lf hlf b hf.2 n1).2 h
   | .bin op p a b, hf => by
     simp only [fragO, Bool.and_eq_true] at hf
-    have iha := eval_refines_spec_ord ord hord a hf.1.2
-    have ihb := eval_refines_spec_ord ord hord b hf.2
+    have iha := eval_refines_spec_ord ord hord lf hlf a hf.1.2
+    have ihb := eval_refines_spec_ord ord hord lf hlf b hf.2
     cases op with
     | add => exact strict_sim hr .add p a b (by simp) add_refines iha ihb
     | sub => exact strict_sim hr .sub p a b (by simp) sub_refines iha ihb
@@ -518,10 +631,13 @@ theorem eval_refines_spec_ord (ord : Bool) (hord : ord = true → OrdExact) : (e
           | float x => simp [absV] at herr
           | str x => simp [absV] at herr
   | .func _ name args, hf => by
+    by_cases hL : (lf && isLoopFunc name) = true
+    · simp only [Bool.and_eq_true] at hL
+      exact loopFn_sim (hlf hL.1) _ name hL.2 args
     intro n
-    simp only [fragO, Bool.and_eq_true] at hf
+    simp only [fragO, hL, Bool.false_or, Bool.and_eq_true] at hf
     obtain ⟨hlM, hlS⟩ := fnOk_notLoop name hf.1
-    have ih := args_sim ord hord args hf.2 n
+    have ih := args_sim ord hord lf hlf args hf.2 n
     rw [Spec.Eval.eval.eq_def, evalE.eq_def]
     simp only [hlM, hlS, Bool.false_eq_true, if_false]
     refine ⟨fun v hv => ?_, fun herr => ?_⟩
@@ -558,7 +674,7 @@ theorem eval_refines_spec_ord (ord : Bool) (hord : ord = true → OrdExact) : (e
           simp [hc']
   | .list _ items, hf => by
     intro n
-    have ih := args_sim ord hord items (by simpa [fragO] using hf) n
+    have ih := args_sim ord hord lf hlf items (by simpa [fragO] using hf) n
     rw [Spec.Eval.eval, evalE]
     refine ⟨fun v hv => ?_, fun herr => ?_⟩
     · obtain ⟨vs, hvs, hv⟩ := bind_val hv
@@ -571,7 +687,7 @@ theorem eval_refines_spec_ord (ord : Bool) (hord : ord = true → OrdExact) : (e
       · simp at h
   | .map _ items, hf => by
     intro n
-    have ih := map_sim ord hord items (by simpa [fragO] using hf) n
+    have ih := map_sim ord hord lf hlf items (by simpa [fragO] using hf) n
     rw [Spec.Eval.eval, evalE]
     refine ⟨fun v hv => ?_, fun herr => ?_⟩
     · obtain ⟨B, hB, hv⟩ := bind_val hv
@@ -583,7 +699,7 @@ theorem eval_refines_spec_ord (ord : Bool) (hord : ord = true → OrdExact) : (e
       · rw [ih.2 h]
       · simp at h
 /-- an access chain on related bases -/
-theorem acc_sim (ord : Bool) (hord : ord = true → OrdExact) : (acc : AccessList) → accFrag ord acc = true →
+theorem acc_sim (ord : Bool) (hord : ord = true → OrdExact) (lf : Bool) (hlf : lf = true → LoopRel m s) : (acc : AccessList) → accFrag ord lf acc = true →
     ∀ (ref : Value) (n : Nat),
       (∀ v, Spec.Eval.evalAcc s acc (absV ref) = .val v → ∃ mv n', evalAccesses m acc ref n = .ok mv n' ∧ absV mv = v) ∧
       (Spec.Eval.evalAcc s acc (absV ref) = .error → evalAccesses m acc ref n = .err)
@@ -594,16 +710,16 @@ theorem acc_sim (ord : Bool) (hord : ord = true → OrdExact) : (acc : AccessLis
     simp only [accFrag] at hf
     rw [Spec.Eval.evalAcc.eq_def, evalAccesses]
     simp only
-    exact step_cont rest (access_str ref ns k _) n (acc_sim ord hord rest hf)
+    exact step_cont rest (access_str ref ns k _) n (acc_sim ord hord lf hlf rest hf)
   | .cons (.index _ ns i) rest, hf, ref, n => by
     simp only [accFrag] at hf
     rw [Spec.Eval.evalAcc.eq_def, evalAccesses]
     simp only
-    exact step_cont rest (access_int ref ns i _) n (acc_sim ord hord rest hf)
+    exact step_cont rest (access_int ref ns i _) n (acc_sim ord hord lf hlf rest hf)
   | .cons (.expr _ ns e) rest, hf, ref, n => by
     simp only [accFrag, Bool.and_eq_true] at hf
-    have ihe := eval_refines_spec_ord ord hord e hf.1 n
-    have ihr := acc_sim ord hord rest hf.2
+    have ihe := eval_refines_spec_ord ord hord lf hlf e hf.1 n
+    have ihr := acc_sim ord hord lf hlf rest hf.2
     rw [Spec.Eval.evalAcc.eq_def, evalAccesses]
     simp only
     refine ⟨fun v hv => ?_, fun herr => ?_⟩
@@ -635,7 +751,7 @@ theorem acc_sim (ord : Bool) (hord : ord = true → OrdExact) : (acc : AccessLis
         | bool b => simp only [str, Value.render, Value.toString]; exact (step_cont rest (access_other ref ns _ _) n1 ihr).2 herr
         | float f => simp only [str, Value.render, Value.toString]; exact (step_cont rest (access_other ref ns _ _) n1 ihr).2 herr
 /-- the items of a list literal / the arguments of a function, left to right -/
-theorem args_sim (ord : Bool) (hord : ord = true → OrdExact) : (items : ExprList) → listFragO ord items = true → ∀ (n : Nat),
+theorem args_sim (ord : Bool) (hord : ord = true → OrdExact) (lf : Bool) (hlf : lf = true → LoopRel m s) : (items : ExprList) → listFragO ord lf items = true → ∀ (n : Nat),
     (∀ vs, Spec.Eval.evalList s items = .val vs → ∃ mvs n', evalArgs m items n = some (mvs, n') ∧ absL mvs = vs) ∧
     (Spec.Eval.evalList s items = .error → evalArgs m items n = none)
   | .nil, _, n => by
@@ -643,13 +759,13 @@ theorem args_sim (ord : Bool) (hord : ord = true → OrdExact) : (items : ExprLi
     exact ⟨fun vs h => by simp only [Out.val.injEq] at h; exact ⟨[], n, rfl, by rw [← h]; rfl⟩, fun h => by simp at h⟩
   | .cons e r, hf, n => by
     simp only [listFragO, Bool.and_eq_true] at hf
-    have he := eval_refines_spec_ord ord hord e hf.1 n
+    have he := eval_refines_spec_ord ord hord lf hlf e hf.1 n
     rw [Spec.Eval.evalList, evalArgs]
     refine ⟨fun vs hv => ?_, fun herr => ?_⟩
     · obtain ⟨v, hv1, hv⟩ := bind_val hv
       obtain ⟨vr, hv2, hv⟩ := bind_val hv
       obtain ⟨mv, n1, h1, h2⟩ := he.1 v hv1
-      obtain ⟨mvs, n2, h4, h5⟩ := (args_sim ord hord r hf.2 n1).1 vr hv2
+      obtain ⟨mvs, n2, h4, h5⟩ := (args_sim ord hord lf hlf r hf.2 n1).1 vr hv2
       simp only [Out.val.injEq] at hv
       rw [h1]; simp only [h4]
       exact ⟨mv :: mvs, n2, rfl, by rw [← hv, absL, h2, h5]⟩
@@ -658,10 +774,10 @@ theorem args_sim (ord : Bool) (hord : ord = true → OrdExact) : (items : ExprLi
       · obtain ⟨mv, n1, h1, _⟩ := he.1 v hv1
         rw [h1]
         rcases bind_err herr with h | ⟨vr, _, h⟩
-        · simp only [(args_sim ord hord r hf.2 n1).2 h]
+        · simp only [(args_sim ord hord lf hlf r hf.2 n1).2 h]
         · simp at h
 /-- the items of a map literal (pairwise different keys) -/
-theorem map_sim (ord : Bool) (hord : ord = true → OrdExact) : (items : MapItems) → mapFragO ord items = true → ∀ (n : Nat),
+theorem map_sim (ord : Bool) (hord : ord = true → OrdExact) (lf : Bool) (hlf : lf = true → LoopRel m s) : (items : MapItems) → mapFragO ord lf items = true → ∀ (n : Nat),
     (∀ B, Spec.Eval.evalMap s items = .val B → ∃ kvs n', evalMapItems m items n = some (kvs, n') ∧ absK kvs = B) ∧
     (Spec.Eval.evalMap s items = .error → evalMapItems m items n = none)
   | .nil, _, n => by
@@ -670,13 +786,13 @@ theorem map_sim (ord : Bool) (hord : ord = true → OrdExact) : (items : MapItem
   | .cons k e r, hf, n => by
     simp only [mapFragO, Bool.and_eq_true, Bool.not_eq_true', List.contains_eq_mem, decide_eq_false_iff_not] at hf
     obtain ⟨⟨hfe, hk⟩, hfr⟩ := hf
-    have he := eval_refines_spec_ord ord hord e hfe n
+    have he := eval_refines_spec_ord ord hord lf hlf e hfe n
     rw [Spec.Eval.evalMap, evalMapItems]
     refine ⟨fun B hv => ?_, fun herr => ?_⟩
     · obtain ⟨v, hv1, hv⟩ := bind_val hv
       obtain ⟨Br, hv2, hv⟩ := bind_val hv
       obtain ⟨mv, n1, h1, h2⟩ := he.1 v hv1
-      obtain ⟨kvs, n2, h4, h5⟩ := (map_sim ord hord r hfr n1).1 Br hv2
+      obtain ⟨kvs, n2, h4, h5⟩ := (map_sim ord hord lf hlf r hfr n1).1 Br hv2
       simp only [Out.val.injEq] at hv
       rw [h1]; simp only [h4]
       refine ⟨(k, mv) :: kvs, n2, rfl, ?_⟩
@@ -686,20 +802,20 @@ theorem map_sim (ord : Bool) (hord : ord = true → OrdExact) : (items : MapItem
       · obtain ⟨mv, n1, h1, _⟩ := he.1 v hv1
         rw [h1]
         rcases bind_err herr with h | ⟨Br, _, h⟩
-        · simp only [(map_sim ord hord r hfr n1).2 h]
+        · simp only [(map_sim ord hord lf hlf r hfr n1).2 h]
         · simp at h
 end
 
 /-- the model refines the specification on the scalar operator fragment (no ordering comparisons, no
     hypothesis) -/
 theorem eval_refines_spec_partial (e : Expr) (hf : frag e = true) : Sim m s e :=
-  eval_refines_spec_ord hr false (fun h => by cases h) e hf
+  eval_refines_spec_ord hr false (fun h => by cases h) false (fun h => by cases h) e hf
 
 /-- … and with `< > <= >=` on int/int, int/float and float/float operands, given that int → float
     conversion is order-exact below 2^53 (`OrdExact`: a statement about the soft-float Base/F64 that is
     validated bit for bit by the C20 correspondence but not proved) -/
-theorem eval_refines_spec_with_ordering (hx : OrdExact) (e : Expr) (hf : fragO true e = true) : Sim m s e :=
-  eval_refines_spec_ord hr true (fun _ => hx) e hf
+theorem eval_refines_spec_with_ordering (hx : OrdExact) (e : Expr) (hf : fragO true false e = true) : Sim m s e :=
+  eval_refines_spec_ord hr true (fun _ => hx) false (fun h => by cases h) e hf
 end
 
 /-! ### `OrdExact` is a theorem -/
@@ -721,9 +837,52 @@ include hr
 /-- the refinement with `< > <= >=`, WITHOUT hypothesis: on the fragment `fragO true` (scalar operators and
     the ordering comparisons on int/int, int/float, float/float operands, ints within ±2^53 as the
     specification demands) the model evaluates to what the specification says, and errs where it errs -/
-theorem eval_refines_spec_ordering (e : Expr) (hf : fragO true e = true) : Sim m s e :=
+theorem eval_refines_spec_ordering (e : Expr) (hf : fragO true false e = true) : Sim m s e :=
   eval_refines_spec_with_ordering hr ordExact e hf
+
+/-- … and with the loop functions index / isFirst / isLast (`fragO true true`), given `LoopRel m s`: the
+    interpreter's bookkeeping names hold the index and last index of the specification's enclosing loops,
+    and those loops are shorter than 2^63 -/
+theorem eval_refines_spec_loops (hl : LoopRel m s) (e : Expr) (hf : fragO true true e = true) : Sim m s e :=
+  eval_refines_spec_ord hr true (fun _ => ordExact) true (fun _ => hl) e hf
 end
+
+/-! `isLast($x) ? index($x) + 1 : 0` in the third (last) iteration of a loop over `x`: 3 -/
+def mLoop : EEnv :=
+  { lookup := fun k => if k == [120] ++ sIndexSuffix then .int 2 else if k == [120] ++ sLastIndexSuffix then .int 2 else .undefined,
+    ij := none, globals := [] }
+def sLoop : Spec.Eval.Env := { vars := [], loops := [([120], 2, 2)], ij := none, globals := [] }
+theorem isHelper_index (v : Bytes) : isHelper (v ++ sIndexSuffix) = true := by
+  simp [isHelper, List.isSuffixOf_iff_suffix]
+theorem isHelper_last (v : Bytes) : isHelper (v ++ sLastIndexSuffix) = true := by
+  simp [isHelper, List.isSuffixOf_iff_suffix]
+theorem relLoopEnv : EnvRel mLoop sLoop := by
+  refine ⟨fun k hk => ?_, fun k => by simp [mLoop, sLoop, Frame.find, Spec.Eval.find], rfl⟩
+  have h1 : (k == [120] ++ sIndexSuffix) = false := by
+    cases h : k == [120] ++ sIndexSuffix
+    · rfl
+    · rw [beq_iff_eq.mp h, isHelper_index] at hk; cases hk
+  have h2 : (k == [120] ++ sLastIndexSuffix) = false := by
+    cases h : k == [120] ++ sLastIndexSuffix
+    · rfl
+    · rw [beq_iff_eq.mp h, isHelper_last] at hk; cases hk
+  show absV (if (k == [120] ++ sIndexSuffix) = true then _ else if (k == [120] ++ sLastIndexSuffix) = true then _ else _) = _
+  rw [h1, h2]
+  rfl
+theorem loopRel0 : LoopRel mLoop sLoop := by
+  intro x i l h
+  simp only [sLoop, Spec.Eval.findLoop] at h
+  split at h
+  · rename_i hx
+    simp only [Option.some.injEq, Prod.mk.injEq] at h
+    obtain ⟨rfl, rfl⟩ := h
+    rw [← beq_iff_eq.mp hx]
+    exact ⟨rfl, rfl, Nat.le_refl _, by decide⟩
+  · cases h
+def xv (p : Nat) : ExprList := .cons (.dataRef p [120] .nil) .nil
+def eLoop : Expr := .tern 0 (.func 0 fIsLast (xv 0)) (.bin .add 0 (.func 0 fIndex (xv 0)) (.int 0 1)) (.int 0 0)
+example : ∃ mv n', evalE mLoop eLoop 7 = .ok mv n' ∧ absV mv = .int 3 :=
+  (eval_refines_spec_loops relLoopEnv loopRel0 eLoop (by decide) 7).1 (.int 3) (by rfl)
 
 /-- beyond 2^53 the conversion is NOT order-exact, in the model as in Go (`exec.go` compares
     `toFloat(a) < toFloat(b)`): 2^53 + 1 rounds to 2^53, so `9007199254740993 > 9007199254740992` is false
